@@ -53,7 +53,7 @@ func genCase(t *rapid.T) Case {
 			op.Swap = rapid.SampledFrom([]string{"inc", "inc", "const", "nil", "panic"}).Draw(t, "swap")
 			op.V = rapid.IntRange(0, 8).Draw(t, "v")
 		case "wait":
-			op.Wait = rapid.SampledFrom([]string{"value", "change", "empty", "valid", "valid", "nilvalid"}).Draw(t, "wait")
+			op.Wait = rapid.SampledFrom([]string{"value", "change", "empty", "valid", "valid", "nilvalid", "watch"}).Draw(t, "wait")
 			op.Ge = rapid.IntRange(0, 8).Draw(t, "ge")
 			op.Old = rapid.IntRange(0, 8).Draw(t, "old")
 			if rapid.IntRange(0, 3).Draw(t, "haserr") == 0 {
@@ -97,6 +97,7 @@ type waiter struct {
 	err        error
 	samples    []int
 	validErr   error
+	delivered  []int // watch: values handed to the WatchChanges callback
 }
 
 func run(t *testing.T, cs Case) *ev.Verdict {
@@ -178,6 +179,13 @@ func body(c *sched.Ctl, cs Case, v *ev.Verdict) {
 			return !cmp(0, x)
 		case "change":
 			return !cmp(w.op.Old, x)
+		case "watch":
+			// the watcher waits for a value that differs from the last one it handed out
+			last := w.op.Old
+			if n := len(w.delivered); n > 0 {
+				last = w.delivered[n-1]
+			}
+			return !cmp(last, x)
 		case "empty":
 			return cmp(0, x)
 		default: // valid
@@ -370,6 +378,25 @@ func body(c *sched.Ctl, cs Case, v *ev.Verdict) {
 					err = ctr.WaitValueEmpty(ctx, errCh)
 				case "nilvalid":
 					val, err = ctr.WaitValueWithValidator(ctx, nil, errCh)
+				case "watch":
+					err = ccontainer.WatchChanges(ctx, w.op.Old, ccontainer.ToWatchable(ctr), func(x int) error {
+						hm.Lock()
+						defer hm.Unlock()
+						if len(w.samples) == 0 {
+							fail("ccontainer:return-without-sample", "watcher #%d got a value without entering a critical section", w.id)
+							return nil
+						}
+						if last := w.samples[len(w.samples)-1]; x != last {
+							fail("ccontainer:value-not-held", "watcher #%d was handed %d; the cell held %v at its samples (last %d)", w.id, x, w.samples, last)
+						} else if !cond(w, x) {
+							fail("ccontainer:condition-not-satisfied", "watcher #%d (initial %d, handed out so far %v) was handed %d which does not differ from the previous value", w.id, w.op.Old, w.delivered, x)
+						}
+						w.delivered = append(w.delivered, x)
+						return nil
+					}, errCh)
+					if err == nil {
+						err = fmt.Errorf("WatchChanges returned nil")
+					}
 				default:
 					val, err = ctr.WaitValueWithValidator(ctx, func(x int) (bool, error) {
 						if w.op.ErrAt != 0 && x == w.op.ErrAt {
@@ -494,7 +521,7 @@ func body(c *sched.Ctl, cs Case, v *ev.Verdict) {
 func TestC15(t *testing.T) {
 	ev.Drive(t, ev.Runner[Case]{
 		Prop: P,
-		Rule: "one CContainer[int] (plain, equal-mod-4 equality, a mod-4 comparator that never calls a zero operand equal, or a directional comparator equal(held, incoming) iff incoming < held); ops SetValue, SwapValue(inc|const|nil|panicking callback), GetValue, waiters WaitValue/WaitValueChange/WaitValueEmpty/WaitValueWithValidator(pred, failing pred, nil) with own context and optional error channel, Cancel, send (nil or error) / close on the error channel; sequential model advanced in the order the controller grants the critical sections; non-trivial iff a write changed the cell while a waiter was parked between its sample and its blocking select; distinct by hash(ops, realised grant trace)",
+		Rule: "one CContainer[int] (plain, equal-mod-4 equality, a mod-4 comparator that never calls a zero operand equal, or a directional comparator equal(held, incoming) iff incoming < held); ops SetValue, SwapValue(inc|const|nil|panicking callback), GetValue, waiters WaitValue/WaitValueChange/WaitValueEmpty/WaitValueWithValidator(pred, failing pred, nil) and WatchChanges watchers (blocked only while the cell does not differ from the last value handed to the callback) with own context and optional error channel, Cancel, send (nil or error) / close on the error channel; sequential model advanced in the order the controller grants the critical sections; non-trivial iff a write changed the cell while a waiter was parked between its sample and its blocking select; distinct by hash(ops, realised grant trace)",
 		Gen:  genCase,
 		Run:  run,
 	})
